@@ -236,9 +236,53 @@ fn strategy_ev<T: SElem + num_traits::ToPrimitive>(case: &Value, out: &mut Vec<V
     out.push(Value::Object(o));
 }
 
+/// GridBuilder over a matrix of 1..3 columns followed by a real histogram of the rows.
+fn gridbuilder_ev<T: SElem + num_traits::ToPrimitive, B: BinsBuildingStrategy<Elem = T>>(case: &Value, out: &mut Vec<Value>) {
+    let mode = jstr(case, "mode", "quarter");
+    let cols: Vec<Vec<i64>> = case["cols"].as_array().unwrap().iter().map(jints).collect();
+    let (n, d) = (cols[0].len(), cols.len());
+    let flat: Vec<T> = (0..n).flat_map(|i| (0..d).map(move |j| (i, j))).map(|(i, j)| T::mk(cols[j][i], mode)).collect();
+    let lay = if case.get("lay").is_some() { Lay::from_json(&case["lay"]) } else { Lay::plain(&[n, d], false) };
+    let parent = lay.build(&flat, |_| T::mk(1, mode));
+    let m = lay.view(&parent).into_dimensionality::<Ix2>().unwrap();
+    let mut o = case.as_object().unwrap().clone();
+    o.insert("ev".into(), json!("gridbuilder"));
+    o.insert("n".into(), json!(n));
+    let r = guarded(|| GridBuilder::<B>::from_array(&m).map(|g| g.build()));
+    match r {
+        Err(()) => { o.insert("out".into(), json!("panic")); }
+        Ok(Err(e)) => { o.insert("out".into(), json!(if e.is_empty_input() { "EmptyInput" } else { "Strategy" })); }
+        Ok(Ok(grid)) => {
+            o.insert("out".into(), json!("ok"));
+            o.insert("ndim".into(), json!(grid.ndim()));
+            let mut pcols: Vec<Value> = Vec::new();
+            for (j, bins) in grid.projections().iter().enumerate() {
+                let vals: Vec<T> = (0..n).map(|i| T::mk(cols[j][i], mode)).collect();
+                let rm = rank_map(&vals);
+                let edges: Vec<T> = (0..bins.len()).map(|i| bins.index(i).start).chain((bins.len() > 0).then(|| bins.index(bins.len() - 1).end)).collect();
+                pcols.push(json!({"e2": edges.iter().map(|e| rank2_of(&rm, e)).collect::<Vec<_>>(), "nvals": rm.len(),
+                                  "covered": vals.iter().filter(|x| bins.index_of(x).is_some()).count()}));
+            }
+            o.insert("pcols".into(), json!(pcols));
+            let total = guarded(|| m.histogram(grid).counts().sum());
+            o.insert("hist_total".into(), json!(total.map(|t| t as i64).unwrap_or(-1)));
+        }
+    }
+    o.insert("ndistinct".into(), json!(cols.iter().map(|c| { let mut v = c.clone(); v.sort(); v.dedup(); v.len() }).collect::<Vec<_>>()));
+    out.push(Value::Object(o));
+}
+
 pub fn run(case: &Value, _params: &Params, out: &mut Vec<Value>) {
     let ev = jstr(case, "ev", "");
     let ty = jstr(case, "ty", "i32");
+    if ev == "gridbuilder" {
+        macro_rules! gb { ($t:ty) => { match jstr(case, "strat", "sqrt") {
+            "sqrt" => gridbuilder_ev::<$t, Sqrt<$t>>(case, out), "rice" => gridbuilder_ev::<$t, Rice<$t>>(case, out),
+            "sturges" => gridbuilder_ev::<$t, Sturges<$t>>(case, out), "fd" => gridbuilder_ev::<$t, FreedmanDiaconis<$t>>(case, out),
+            _ => gridbuilder_ev::<$t, Auto<$t>>(case, out) } }; }
+        match ty { "i64" => gb!(i64), "n64" => gb!(N64), _ => gb!(i32) }
+        return;
+    }
     match ev {
         "hist" => {
             if case.get("ty").is_some() { with_helem!(ty, hist_ev, case, out) } else {
@@ -303,6 +347,17 @@ pub fn gen(seed: u64, count: usize, tier: &str, params: &Params) -> Vec<Value> {
                 let idx: Vec<i64> = (0..d).map(|a| { let mut e = axes[a].clone(); e.sort(); e.dedup(); let len = (e.len() as i64 - 1).max(0);
                     match rng.below(8) { 0 => len, 1 => len + 1, 2 => BIG, 3 => BIG - 1 - rng.range(0, len.max(1)), _ => if len > 0 { rng.range(0, len - 1) } else { 0 } } }).collect();
                 cases.push(json!({"ev": "index", "ty": ty, "axes": axes, "idx": idx}));
+            }
+            "gridbuilder" => {
+                let sty = *rng.pick(&["i32", "i64", "n64"]);
+                let d = rng.range(1, 3) as usize;
+                let n = match rng.below(6) { 0 => 0, 1 => 1, _ => rng.range(2, 120) } as usize;
+                let (mode, lo, hi): (&str, i64, i64) = if sty == "n64" { *rng.pick(&[("tenth", 0i64, 400i64), ("quarter", -200, 200), ("third", -50, 50)]) } else { ("int", -5000, 5000) };
+                let cols: Vec<Vec<i64>> = (0..d).map(|_| { let st = rng.below(4); let c0 = rng.range(lo, hi);
+                    (0..n).map(|k| match st { 0 => lo + (k as i64 * (hi - lo)) / n.max(1) as i64, 1 => if rng.chance(1, 8) { rng.range(lo, hi) } else { c0 }, _ => rng.range(lo, hi) }).collect() }).collect();
+                let fancy = rng.chance(1, 2);
+                let lay = random_lay(&mut rng, &[n, d], fancy);
+                cases.push(json!({"ev": "gridbuilder", "ty": sty, "strat": *rng.pick(&["sqrt", "rice", "sturges", "fd", "auto"]), "mode": mode, "cols": cols, "lay": lay.to_json()}));
             }
             _ => {
                 // strategies
